@@ -228,6 +228,40 @@ class PathEnum:
                 return n
         return S().visit(copy.deepcopy(e))
 
+    def _alternatives(self, e, depth=0):
+        """[(conditions, expression)] with every conditional expression (outside lambdas / comprehensions) resolved to
+        one of its branches; conditions = [(test, polarity)] in evaluation order"""
+        target = []
+
+        def find(n):
+            if target or isinstance(n, (ast.Lambda, ast.ListComp, ast.SetComp, ast.DictComp, ast.GeneratorExp)):
+                return
+            if isinstance(n, ast.IfExp):
+                target.append(n)
+                return
+            for ch in ast.iter_child_nodes(n):
+                find(ch)
+        find(e)
+        if not target or depth > 6:
+            return [([], e)]
+        node = target[0]
+
+        def replace(n, branch):
+            if n is node:
+                return copy.deepcopy(branch)
+            n2 = copy.copy(n)
+            for field, val in ast.iter_fields(n):
+                if isinstance(val, ast.AST):
+                    setattr(n2, field, replace(val, branch))
+                elif isinstance(val, list):
+                    setattr(n2, field, [replace(x, branch) if isinstance(x, ast.AST) else x for x in val])
+            return n2
+        out = []
+        for pol, branch in ((True, node.body), (False, node.orelse)):
+            for conds, v in self._alternatives(replace(e, branch), depth + 1):
+                out.append(([(node.test, pol)] + conds, v))
+        return out
+
     def _bind(self, env, name, value):
         if _trivial(value):
             env[name] = value
@@ -254,7 +288,11 @@ class PathEnum:
                         yield from self._exec(rest, e2, ev2)
             return
         if isinstance(st, ast.Return):
-            yield env, events, ('return', None if st.value is None else self._subst(st.value, env), line)
+            if st.value is None:
+                yield env, events, ('return', None, line)
+                return
+            for conds, v in self._alternatives(self._subst(st.value, env)):
+                yield env, events + [('cond', t, pol, line) for t, pol in conds], ('return', v, line)
             return
         if isinstance(st, ast.Raise):
             yield env, events, ('raise', None if st.exc is None else self._subst(st.exc, env), line)
@@ -263,7 +301,8 @@ class PathEnum:
             yield from self._exec(rest, env, events)
             return
         if isinstance(st, ast.Expr):
-            yield from self._exec(rest, env, events + [('expr', self._subst(st.value, env), line)])
+            for conds, v in self._alternatives(self._subst(st.value, env)):
+                yield from self._exec(rest, env, events + [('cond', t, pol, line) for t, pol in conds] + [('expr', v, line)])
             return
         if isinstance(st, (ast.Assign, ast.AnnAssign)):
             if isinstance(st, ast.AnnAssign):
@@ -273,7 +312,15 @@ class PathEnum:
                 targets = [st.target]
             else:
                 targets = st.targets
-            value = self._subst(st.value, env)
+            alts = self._alternatives(self._subst(st.value, env))
+            if len(alts) > 1:
+                # `x = a if t else b` is the statement `if t: x = a else: x = b`
+                for conds, v in alts:
+                    st2 = copy.copy(st)
+                    st2.value = v
+                    yield from self._exec([st2] + rest, env, events + [('cond', t, pol, line) for t, pol in conds])
+                return
+            value = alts[0][1]
             env = dict(env)
             events = list(events)
             for t in targets:
@@ -1901,6 +1948,49 @@ def getters_of(rt, rc):
     return out
 
 
+MAX_HELPER_DEPTH = 2
+
+
+class _SelfMethods(dict):
+    """methods of `self` while a getter is interpreted: get_model is recorded; any other method of the recogniser class
+    (below Recognizer; static or not) is inlined - parameters bound to the call's arguments, defaults evaluated - down to
+    MAX_HELPER_DEPTH nested levels; deeper nesting fails closed"""
+
+    def __init__(self, rt, k, base, depth, what):
+        dict.__init__(self, base)
+        self.rt, self.k, self.base, self.depth, self.what = rt, k, base, depth, what
+
+    def _find(self, name):
+        hk, hfn = self.rt.idx.find_method(self.k, name)
+        if hfn is None or hk is self.rt.Recognizer or hk not in self.rt.idx.mro(self.k):
+            return None
+        below = self.rt.idx.mro(self.k)
+        if self.rt.Recognizer in below and below.index(hk) > below.index(self.rt.Recognizer):
+            return None
+        return hk, hfn
+
+    def __contains__(self, name):
+        return name in self.base or self._find(name) is not None
+
+    def __getitem__(self, name):
+        if name in self.base:
+            return self.base[name]
+        hk, hfn = self._find(name)
+        w = '%s>%s' % (self.what, name)
+        if self.depth >= MAX_HELPER_DEPTH:
+            raise AnalysisError('%s: helper methods nested deeper than %d levels are not followed (self.%s)'
+                                % (self.what, MAX_HELPER_DEPTH, name))
+        if any(isinstance(d, ast.Name) and d.id == 'property' for d in hfn.decorator_list):
+            raise AnalysisError('%s: self.%s is a property - not modelled' % (self.what, name))
+        rt = self.rt
+        if is_static(hfn):
+            return lambda args, kwargs: rt.interp.call(hk.mod, hfn, list(args), kwargs, hk, w)
+        inner = SelfVal(methods=_SelfMethods(rt, self.k, self.base, self.depth + 1, w))
+        if any(isinstance(d, ast.Name) and d.id == 'classmethod' for d in hfn.decorator_list):
+            return lambda args, kwargs: rt.interp.call(hk.mod, hfn, [ClassVal(self.k)] + list(args), kwargs, hk, w)
+        return lambda args, kwargs: rt.interp.call(hk.mod, hfn, [inner] + list(args), kwargs, hk, w)
+
+
 FALLBACK = Opaque('the getter\'s fallback argument')
 
 
@@ -1926,15 +2016,7 @@ def getter_route(rt, k, fn, code):
         raise AnalysisError('%s:%d %s.%s: parameters %s are not (culture, fallback)' % (k.mod.rel, fn.lineno, k.name, fn.name, ps))
     env_args = {p: (code if kinds[p] == 'culture' else FALLBACK) for p in ps}
     what = '%s %s.%s' % (k.mod.rel, k.name, fn.name)
-    methods = {'get_model': hook}
-    inner = SelfVal(methods={'get_model': hook})          # inside a helper: no further helper level is modelled
-    for hname in sorted(_self_calls(fn) - {'get_model', fn.name}):
-        hk, hfn = rt.idx.find_method(k, hname)
-        if hfn is not None and hk is not rt.Recognizer and _calls_get_model(hfn) and not is_static(hfn):
-            # one level of same-class helper, inlined: parameters bound to the call's arguments, defaults evaluated
-            methods[hname] = (lambda args, kwargs, hk=hk, hfn=hfn:
-                              rt.interp.call(hk.mod, hfn, [inner] + list(args), kwargs, hk, '%s>%s' % (what, hfn.name)))
-    me = SelfVal(methods=methods)
+    me = SelfVal(methods=_SelfMethods(rt, k, {'get_model': hook}, 0, what))
     r = rt.interp.call(k.mod, fn, [me], env_args, k, what)
     if r is not token or len(calls) != 1:
         raise AnalysisError('%s: for culture %r the getter does not return the result of exactly one self.get_model call' % (what, code))
